@@ -897,6 +897,16 @@ impl ContinuityStreamCache {
         let mut events = parsed.events;
         events.reverse();
 
+        // A scan that reached the start of the file has seen the whole stream only if the file
+        // begins with the stream's first frame (a zero-byte file, or a file re-created by a later
+        // append after the sidecar was lost, must not be reported as the complete history).
+        if parsed.complete && events.first().map(|event| event.seq) != Some(0) {
+            return Err(io::Error::new(
+                io::ErrorKind::InvalidData,
+                "continuity sidecar does not start at seq 0",
+            ));
+        }
+
         if events.len() >= 2 {
             let mut expected = events[0].seq;
             for event in &events[1..] {
